@@ -58,6 +58,17 @@ def _worker(ys):
                                 n += 1
                                 if got != base and len(bad) < 300:
                                     bad.append((unit, p.isoformat(), q.isoformat(), t1, t2, str(got), str(base)))
+                        # both instants held as epoch values: the same duration again
+                        if p.year >= 1902:
+                            n += 1
+                            try:
+                                sx = [{"typ": E["DT_SEXY"], "sandwich": 0, "sexy": int((x_ - datetime.datetime(1970, 1, 1)).total_seconds())} for x_ in (p, q)]
+                                r = call(dtu, "dt_dtdiff", E[unit], sx[0], sx[1])
+                                got = tuple(sorted((k, v) for k, v in r.items() if v not in (0, None))) if isinstance(r, dict) else r
+                            except fold.Abort as ex:
+                                got = "abort: %s" % ex
+                            if got != base and len(bad) < 300:
+                                bad.append((unit, p.isoformat(), q.isoformat(), "DT_SEXY", "DT_SEXY", str(got), str(base)))
     return n, bad
 
 
@@ -77,7 +88,7 @@ def run_parallel(R, P, rule, jobs=12):
             if f is not None and getattr(f, "body", None) is not None:
                 return f
         return None
-    E = {k: dtu.enum_value(k) for k in [r[0] for r in REPR] + list(UNITS) + ["DT_HMS"]}
+    E = {k: dtu.enum_value(k) for k in [r[0] for r in REPR] + list(UNITS) + ["DT_HMS", "DT_SEXY"]}
     if None in E.values():
         raise AnalysisBroken("%s: tags not found (%s)" % (rule, E))
     _G.update(tu=tu, dtu=dtu, resolve=resolve, E=E)
@@ -97,5 +108,5 @@ def run_parallel(R, P, rule, jobs=12):
                   "DT_YMD give %s" % (">= " if len(bad) >= 300 else "", len(bad), n, unit, p, t1, q, t2, got, base))
     else:
         R.ob(rule, "dt_dtdiff in years+months+days, years+days, years+weeks+days and days: %d (pair, unit, representations) points give the "
-             "duration of the year-month-day pair whichever of five representations each operand is held in (borrowed days included)" % n, True)
+             "duration of the year-month-day pair whichever of five representations each operand is held in, and for both held as epoch values (borrowed days included)" % n, True)
     return n
